@@ -139,6 +139,10 @@ C02_State(s) ==
 
 -----------------------------------------------------------------------------
 (* ghost ledgers *)
+\* stall:   the take-rate clock legitimately lags: at the last due end-of-block every chargeable asset was too small to yield a
+\*          whole unit (dust), so by design nothing was transferred and the clock stayed (root cause K5)
+\* prevEnd: block time of the previous end-of-block (a block gap of several claim intervals is the other K5 root cause)
+\* dep:     successful deposits into positions that still exist, with their block time (C09 non-retroactivity)
 \* unb: sequence of [d, v, a, amt, due]  — what the unbonding queue must contain
 \* red: sequence of [d, a, src, dst, amt, due] — pending redelegations as requested
 \* slashed: a slash happened while reward indices existed (root cause K1: token values of positions were re-scaled
@@ -152,7 +156,7 @@ C02_State(s) ==
 \*          (C13 does not speak about those; C12 does)
 \* nacc:    position -> number of accruals since its last claim (index resolution allowance)
 GhostInit == [unb |-> <<>>, red |-> <<>>, stall |-> FALSE, dep |-> <<>>, slashed |-> FALSE, k2 |-> NoCoins, stuck |-> NoCoins,
-              ent |-> <<>>, taint |-> {}, nacc |-> <<>>]
+              ent |-> <<>>, taint |-> {}, nacc |-> <<>>, prevEnd |-> -1]
 LedgerOfState(s) ==
   LET xs == SortBy(UnbEntries(s), LAMBDA x : <<x[1][1], DelIdx(x[1][2]), x[2]>>)
   IN  [i \in DOMAIN xs |-> [d |-> s.unbQ[xs[i][1]][xs[i][2]].d, v |-> s.unbQ[xs[i][1]][xs[i][2]].v, a |-> s.unbQ[xs[i][1]][xs[i][2]].a,
@@ -259,8 +263,20 @@ GhostNext(gh, pre, rec, post) ==
                                              /\ rec.ev \notin {"Accrue", "AccrueFees"}}
       stuck0 == IF rec.ev = "EndBlock" THEN [k \in DOMAIN gh.stuck \ {BondDenom} |-> gh.stuck[k]] ELSE gh.stuck     \* stray staking coins are burned
       stuck2 == FoldSet(LAMBDA v, acc : CoinsAdd(acc, Pending(pre, v)), stuck0, strand)
-  IN  [unb |-> unb2, red |-> red1, stall |-> gh.stall, dep |-> dep2, slashed |-> slashed2, k2 |-> k22, stuck |-> stuck2,
-       ent |-> EntNext(gh, pre, rec, post), taint |-> TaintNext(gh, pre, rec, post), nacc |-> NaccNext(gh, pre, rec, post)]
+      \* the clock is due, something is chargeable, and nothing was moved: a dust-only period (by design)
+      stall2 == IF rec.ev = "GovParams" /\ rec.res.ok THEN TRUE     \* governance set the clock or the interval itself: any lag is its choice
+                ELSE IF rec.ev # "EndBlock" THEN gh.stall
+                ELSE LET L == pre.params.last  I == pre.params.interval
+                         due == L # -1 /\ I > 0 /\ pre.now > L + I
+                     IN  IF ~due THEN (IF post.params.last # -1 /\ I > 0 /\ post.params.last + I >= pre.now THEN FALSE ELSE gh.stall)
+                         ELSE IF post.params.last = L /\ (\E a \in DOMAIN pre.assets : Chargeable(pre.assets[a], pre.now))
+                                 /\ (\A a \in DOMAIN pre.assets : Chargeable(pre.assets[a], pre.now) =>
+                                         BLe(BSub(pre.assets[a].total, TruncInt(TakeRateNew(pre.assets[a], (pre.now - L) \div I))), "0") \/ BLe(TakeRateNew(pre.assets[a], (pre.now - L) \div I), ONE))
+                              THEN TRUE
+                         ELSE IF post.params.last + I >= pre.now THEN FALSE ELSE gh.stall
+  IN  [unb |-> unb2, red |-> red1, stall |-> stall2, dep |-> dep2, slashed |-> slashed2, k2 |-> k22, stuck |-> stuck2,
+       ent |-> EntNext(gh, pre, rec, post), taint |-> TaintNext(gh, pre, rec, post), nacc |-> NaccNext(gh, pre, rec, post),
+       prevEnd |-> IF rec.ev = "EndBlock" THEN pre.now ELSE gh.prevEnd]
 
 -----------------------------------------------------------------------------
 (* C02 / C07: unbondings *)
@@ -458,10 +474,18 @@ K2Prospective(s, rd) ==
   BSum({v \in DOMAIN s.env.vals : HasMod(s, v) /\ IsPos(Get(Pending(s, v), rd))},
        LAMBDA v : BSum(PoolEligible(s, Info(s, v)),
                        LAMBDA a : BQuo(BMul("4", BAdd(TruncInt(ValTokens(s.assets[a], Info(s, v), a)), Get(Pending(s, v), rd))), ONE)))
+\* a position's whole-token balance is known only to 10^-18 of the validator's tokens (two 18-digit quotients): next to a very
+\* large position a small one is over- or under-valued by up to that much, and a claim multiplies it by the outstanding index
+K2Resolution(s, rd) ==
+  BSum({k \in DOMAIN s.dels : k[3] \in DOMAIN s.assets /\ k[2] \in DOMAIN s.vals},
+       LAMBDA k : LET vh == s.vals[k[2]].hist  key == <<k[3], rd>>
+                      out == IF key \in DOMAIN vh THEN BSub(vh[key], IF key \in DOMAIN s.dels[k].hist THEN s.dels[k].hist[key] ELSE "0") ELSE "0"
+                      q == BMax("1", CeilDiv(TruncInt(ValTokens(s.assets[k[3]], s.vals[k[2]], k[3])), ONE))
+                  IN  IF IsPos(out) THEN CeilDiv(BMul(q, out), ONE) ELSE "0")
 PoolExplained(s, rec, gh) ==
   IF gh.slashed THEN "K1"
   ELSE IF \A rd \in DOMAIN s.bank.rewards \cup DOMAIN gh.k2 \cup UNION {{p.paid[i].a : i \in DOMAIN p.paid} : p \in ClaimProbes(rec)} :
-             BLe(Shortfall(s, rec, rd), BAdd(Get(gh.k2, rd), K2Prospective(s, rd))) THEN "K2"
+             BLe(Shortfall(s, rec, rd), BAdd(BAdd(Get(gh.k2, rd), K2Prospective(s, rd)), K2Resolution(s, rd))) THEN "K2"
   ELSE ""
 \* K3: the validator records delegator shares of the asset but holds no tokens of it (after a 100 % slash); the share
 \* conversion of a new deposit divides by zero
@@ -493,7 +517,7 @@ C12_Probes(s, rec, gh) ==
 Bits(n) == IF n <= 1 THEN 1 ELSE IF n <= 3 THEN 2 ELSE IF n <= 7 THEN 3 ELSE IF n <= 15 THEN 4 ELSE IF n <= 31 THEN 5 ELSE IF n <= 1023 THEN 10 ELSE 31
 RECURSIVE RPow(_, _)
 RPow(r, n) == IF n = 0 THEN RInt("1") ELSE RMul(r, RPow(r, n - 1))
-C09_Step(pre, rec, post) ==
+C09_Step(pre, rec, post, gh) ==
   IF rec.ev # "EndBlock" \/ ~rec.res.ok THEN {}
   ELSE
     LET L == pre.params.last  I == pre.params.interval
@@ -523,6 +547,17 @@ C09_Step(pre, rec, post) ==
         \cup UNION {Check("C09", [k \in PositionsOf(pre, a) |-> pre.dels[k].shares] = [k \in PositionsOf(post, a) |-> post.dels[k].shares]
                                  /\ post.assets[a].vshares = pre.assets[a].vshares,
                           "a take-rate deduction changed share records of " \o a) : a \in charged}
+        \* never retroactive.  K5: the clock can only advance when coins are moved at an end-of-block, so it lags behind after a
+        \* dust-only period (gh.stall) and across a block gap of several intervals; a lag without either cause is not explained
+        \cup (LET k5 == IF gh.stall \/ (gh.prevEnd # -1 /\ pre.now - gh.prevEnd >= I) \/ gh.prevEnd = -1 THEN "K5" ELSE ""
+              IN  UNION {CheckK("C09", ~(due /\ pre.assets[a].start >= L + I), k5,
+                                "asset " \o a \o " (reward start " \o ToString(pre.assets[a].start) \o ") was charged for " \o ToString(n) \o
+                                " intervals counted from " \o ToString(L) \o ": at least one whole interval before its reward start time") : a \in charged}
+                  \cup UNION {IF gh.dep[i].k[3] \in charged /\ due /\ gh.dep[i].k \in DOMAIN pre.dels
+                              THEN CheckK("C09", (gh.dep[i].t - L) \div I < 2, k5,
+                                          "stake deposited into " \o ToString(gh.dep[i].k) \o " at " \o ToString(gh.dep[i].t) \o " was charged for " \o ToString(n) \o
+                                          " intervals counted from " \o ToString(L) \o ": intervals that had elapsed before it was deposited")
+                              ELSE {} : i \in DOMAIN gh.dep})
         \* must charge when it is due: a started asset with positive rate whose would-be total exceeds one unit
         \cup UNION {LET x == pre.assets[a] IN
                       IF due /\ IsPos(x.total) /\ IsPos(x.take) /\ Started(x, pre.now) /\ RLt(RInt(BAdd("2", errT(a))), exact(a)) /\ a \in DOMAIN post.assets
@@ -726,6 +761,15 @@ C11_Step(pre, rec, post, gh, gh2) ==
                    IF IsPos(burnt) /\ BLe(BAbs(BSub(BAdd(NetSupply(post), burnt), NetSupply(pre))), BMul(BFromInt(touched + 1), ONE)) THEN "K9" ELSE "",
                   rec.ev \o " changed the staking-denom supply net of the module's stake from " \o NetSupply(pre) \o " to " \o NetSupply(post))
    ELSE {})
+  \* exact integer accounting: what the module mints it delegates, what it unbonds it burns - the staking-denom supply moves by
+  \* exactly as much as the validators' tokens do (stray coins burned by end-of-block aside, K9)
+  \cup (IF rec.ev \in AllianceEvents /\ rec.ev # "SlashHook"
+        THEN LET dTok == BSum(DOMAIN pre.env.vals \cap DOMAIN post.env.vals, LAMBDA v : BSub(EnvVal(post, v).tokens, EnvVal(pre, v).tokens))
+                 dSup == BSub(post.bank.supplyBond, pre.bank.supplyBond)
+                 stray == IF rec.ev = "EndBlock" THEN Get(pre.bank.custody, BondDenom) ELSE "0"
+             IN  CheckK("C11", BAdd(dSup, stray) = dTok, IF FALSE THEN "K9" ELSE "",
+                        rec.ev \o " changed the staking-denom supply by " \o dSup \o " (plus " \o stray \o " stray coins burned) but the validators' tokens by " \o dTok)
+        ELSE {})
   \cup (IF rec.ev = "EndBlock" /\ rec.res.ok
         THEN CheckK("C11", IsZero(Get(post.bank.custody, BondDenom)),
                     IF Get(post.bank.custody, BondDenom) = Get(gh2.stuck, BondDenom) THEN "K9" ELSE "",
@@ -825,7 +869,7 @@ Judge(pre, rec, post, gh, gh2) ==
   JudgeState(post, rec, gh2)
   \cup C02_Step(pre, rec, post, gh) \cup C07_Unb_Step(pre, rec, post, gh) \cup C07_Red_Step(pre, rec, post, gh)
   \cup C08_Step(pre, rec, post, gh) \cup C06_Step(pre, rec, post, gh) \cup C04_Step(pre, rec, post)
-  \cup C09_Step(pre, rec, post) \cup C14_Step(pre, rec, post) \cup C14_Settle(pre, rec, post)
+  \cup C09_Step(pre, rec, post, gh) \cup C14_Step(pre, rec, post) \cup C14_Settle(pre, rec, post)
   \cup C15_Step(pre, rec, post, gh) \cup C16_Step(pre, rec, post) \cup C17_Step(pre, rec, post)
   \cup C10_Step(pre, rec, post) \cup C11_Step(pre, rec, post, gh, gh2) \cup C18_Step(pre, rec, post, gh)
   \cup C13_Step(pre, rec, post, gh) \cup C19_Step(pre, rec, post)
